@@ -206,7 +206,9 @@ def step (w : World) (ws : List String) : Option (World × String) :=
                               strand := ← decStrOpt? sd,
                               featuretype := ← (if ft = "~" then some none else (decList? ft).map some),
                               within := ← parseBool wi }
-      pure (withSess w (fun s => (w, "ok " ++ encIds (region s a))))
+      pure (withSess w (fun s => match regionPy s a with
+        | .ok rows => (w, "ok " ++ encIds rows)
+        | .error e => (w, encErr e)))
   | ["count", ft] => do
       let ft ← decStrOpt? ft
       pure (withSess w (fun s => (w, s!"ok {countFeatures s ft}")))
